@@ -287,6 +287,7 @@ def prop_C05(run):
     rules_op.concat_rule(run)
     rules_op.propagate_rule(run)
     rules_op.slice_bounds_rule(run)
+    rules_op.string_token_rule(run)
     rules_lim.lim4(run)
     run.rules_run += ["TAB-op tokens <-> precedence levels <-> evaluator primitives <-> num-bigint operations, literal radix tables", "LIM4 checked primitives (caps, zero tests)"]
 
